@@ -26,6 +26,9 @@ def run(ck, an, tier):
     s4(ck, an)
     s5(ck, an)
     s6(ck, an)
+    from rules import C14 as _c14
+    from sa.report import Renamed as _R
+    _c14.s3(_R(ck, "C14:"), an)      # a discontinued book stays dead and blank (what "discontinued" means for valuation and rolling)
 
 
 def s1_s2(ck, an):
